@@ -153,12 +153,13 @@ func newGraph(n, degree, searchSize int) *vGraph {
 		if id != STARTID {
 			vassume(len(node.edges) <= degree)
 		}
-		node.isDirty = true
-		g.iv.nodeStore.Put(id, node)
+		g.iv.nodeStore.Put(id, node) // Put marks the cache element dirty; the node's own flag stays clear
 	}
 	g.iv.maxNodeId.Store(top)
+	// the pre-state is a committed one: everything flushed, nothing dirty (every write batch ends
+	// with a flush); optionally the node cache is cold
+	vassume(g.iv.nodeStore.Flush() == nil)
 	if vparam("COLD", 0) == 1 && nondetBool() {
-		vassume(g.iv.nodeStore.Flush() == nil)
 		g.iv.nodeStore = cache.NewItemCache[uint64, *graphNode](g.bucket)
 	}
 	return g
@@ -352,9 +353,30 @@ func VerifVamanaDeleteStep() {
 	_, _, serr := g.iv.Search(context.Background(), models.SearchVectorVamanaOptions{Vector: []float32{1, 1}, Operator: "near", SearchSize: vparam("SS", 3), Limit: 1}, nil)
 	vassert("search-after-delete-never-fails", serr == nil)
 	// and the state survives a flush: a cold node store sees the same graph
+	// remember the warm edge lists, flush, and compare with what a cold node store reads back:
+	// every change to an edge list (also the rescue edges of the entry node) must be persisted
+	warmEdges := map[uint64][]uint64{}
+	for id := uint64(1); id <= top; id++ {
+		if node, err := g.iv.nodeStore.Get(id); err == nil && node != nil {
+			warmEdges[id] = append([]uint64{}, node.edges...)
+		}
+	}
 	vassert("flush-ok", g.iv.nodeStore.Flush() == nil)
 	g.iv.nodeStore = cache.NewItemCache[uint64, *graphNode](g.bucket)
 	g.wellFormed("cold", top)
+	for id := uint64(1); id <= top; id++ {
+		node, err := g.iv.nodeStore.Get(id)
+		w, had := warmEdges[id]
+		vassert("cold-node-exists-iff-warm-node-exists", (err == nil) == had)
+		if err == nil && had {
+			vassert("cold-edge-list-length-equals-warm", len(node.edges) == len(w))
+			for i := range w {
+				if i < len(node.edges) {
+					vassert("cold-edge-list-equals-warm", node.edges[i] == w[i])
+				}
+			}
+		}
+	}
 }
 
 // C10(3,5): a whole write batch through insertUpdateDelete (real pipeline, one insert worker):
